@@ -748,7 +748,7 @@ def _tries_outside_closures(body):
 MAX_INLINE_SITES = 8
 
 
-def inline_new_helpers(data, known_fns):
+def inline_new_helpers(data, known_fns, known_methods=None):
     """A private function (free, or an inherent method called as `self.h(..)` / `Self::h(..)` from its own type) that the reference
     tree does not have, that is not recursive, has no `return` inside and is called from at most MAX_INLINE_SITES places (and never
     used as a value), is a piece of its callers that was given a name (`extract function`).  Each call is replaced by a copy of the
@@ -822,6 +822,10 @@ def inline_new_helpers(data, known_fns):
                     imp = cands[nm][3]
                     if imp and ty == imp["self_ty"] and x["recv"].get("k") == "Path" and x["recv"].get("path") == "self":
                         sites[nm].append((x, par, "mcall"))
+                    elif imp and known_methods is not None and nm not in known_methods and len(nm) > 3:
+                        # called on another value: safe to read in place only because no method of that name was called anywhere in
+                        # the reference tree (so it is not a std / dependency method that happens to share the name)
+                        sites[nm].append((x, par, "mcall-other"))
                     elif imp:
                         sites[nm].append((None, par, "other"))   # called on something else than `self`: left alone
                 elif x.get("k") == "Path" and isinstance(x.get("path"), str) and x["path"].split("::")[-1] in sites and not (par is not None and par.get("k") == "Call" and par.get("func") is x):
@@ -836,7 +840,11 @@ def inline_new_helpers(data, known_fns):
         progressed = False
         for name, (path, items, node, imp) in cands.items():
             ss = sites[name]
-            if not ss or len(ss) > MAX_INLINE_SITES or any(c is None for c, _p, _k in ss):
+            as_value = any(c is None and k_ == "value" for c, _p, k_ in ss)
+            if any(c is None and k_ != "value" for c, _p, k_ in ss):
+                continue
+            ss = [t for t in ss if t[0] is not None]   # uses as a value (`.map(helper)`) stay calls of the helper, whose item is then kept
+            if not ss or len(ss) > MAX_INLINE_SITES:
                 continue
             body_nodes = {id(y) for y in A.walk(node["body"])}
             if any(id(c) in body_nodes for c, _p, _k in ss):
@@ -852,7 +860,7 @@ def inline_new_helpers(data, known_fns):
             plans = []
             for call, parent, kind in ss:
                 args = list(call["args"])
-                if kind == "mcall":
+                if kind in ("mcall", "mcall-other"):
                     if not has_self:
                         ok = False
                         break
@@ -876,12 +884,20 @@ def inline_new_helpers(data, known_fns):
                 if (tries or node.get("_err_returns")) and not (under_try and wrapped):
                     ok = False
                     break
-                plans.append((call, parent, ps, args, under_try and wrapped))
+                plans.append((call, parent, ps, args, under_try and wrapped, call["recv"] if kind == "mcall-other" else None))
             if not ok:
                 continue
-            for call, parent, ps, args, unwrap in plans:
+            for call, parent, ps, args, unwrap, other_recv in plans:
                 pos = {k: call[k] for k in ("l", "c", "el", "ec")}
                 body = copy.deepcopy(node["body"])
+                self_bind = None
+                if other_recv is not None:
+                    # `self` inside the body is the receiver of this call: bound once to a local of its own
+                    sname = "self__" + name
+                    for y in A.walk(body):
+                        if y.get("k") == "Path" and y.get("path") == "self":
+                            y["path"] = sname
+                    self_bind = {"k": "Local", "pat": {"k": "PIdent", "name": sname, "mut": False, "by_ref": False, "sub": None, **pos}, "init": other_recv, "else": None, **pos}
                 for rank, y in enumerate(sorted(A.walk(body), key=A.pos)):
                     y["o"] = (call["el"], call["ec"], rank)
                 # a function handed in by name (`fn(..) -> ..` parameter, argument `Type::method`): its calls through the parameter
@@ -906,7 +922,7 @@ def inline_new_helpers(data, known_fns):
                                 y["func"]["path"] = target_path
                 ps_args = [(p, a) for p, a in zip(ps, args) if p["name"] not in fnargs]
                 binds = [(p, a) for p, a in ps_args if not (a.get("k") == "Path" and a.get("path") == p["name"] and not (p.get("pat") or {}).get("mut"))]
-                stmts = []
+                stmts = [self_bind] if self_bind is not None else []
                 if binds:
                     pats = [{"k": "PIdent", "name": p["name"], "mut": bool((p.get("pat") or {}).get("mut")), "by_ref": False, "sub": None, **pos} for p, _a in binds]
                     if len(binds) == 1:
@@ -925,7 +941,10 @@ def inline_new_helpers(data, known_fns):
                     new = {"k": "Block", "stmts": stmts, **pos}
                 target.clear()
                 target.update(new)
-            items.remove(node)
+            if not as_value:
+                items.remove(node)
+            else:
+                known_fns = set(known_fns) | {f"{module(path)}::{imp['self_ty']}::{name}" if imp else f"{module(path)}::{name}"}   # not a candidate again
             done.append(name)
             progressed = True
         if not progressed:
